@@ -29,9 +29,14 @@ TRUSTED = [
     "out of the model: LLSD (de)serialisation of flow bodies, addon hooks (none installed), asset-repo serving, the "
     "EventQueueGet/ProxyWrapper/LoginRequest branches; non-str 'uploader' values; ValueError of list.remove in the temporary-"
     "consumption path is unreachable by the proved invariant C16_lookup_fresh",
-    "seed_request is proved for requests without duplicate names (plus a permutation law for all requests); "
+    "seed_request: exact upstream list proved for requests without duplicate names, permutation and per-name count laws for all "
+    "requests (C16_seed_request_counts); a request listing a proxy-only name twice keeps one copy upstream "
+    "(C16_seed_request_dup_refuted) - viewers send each name once, the oracle does not generate or judge duplicate names; "
     "proxy_cap_idempotent is proved for any interleaving that does not grant the same name in the same region in between "
     "(a simulator grant shadowing a proxy-only name makes the next registration mint a new URL: documented boundary, not checked as a violation)",
+    "C16_wrapper_urls_distinct assumes the stated oracle hypotheses (sha256(seed id)[:16] + lower-cased cap name give distinct "
+    "hosts for distinct (name, seed id); urlsplit recovers the netloc urlunsplit was given); C16_temporary_once and "
+    "C16_resolve_sound assume `unambiguous` (prefix-related grants agree), which excludes the recorded prefix finding",
 ]
 
 WRAPPABLE = ("GetMesh2", "GetMesh", "GetTexture", "ViewerAsset")
